@@ -56,3 +56,28 @@ Fixpoint well_typed (fuel : nat) (env : env) (t : ty) (v : value) : bool :=
     | _, _ => false
     end
   end.
+
+(** Every mandatory member is present, also among the extension additions,
+    at every level (what JER/XER/GSER require of a value; BER/DER/PER/UPER/OER
+    accept absent additions). *)
+Fixpoint fully_present (fuel : nat) (env : env) (t : ty) (v : value) : bool :=
+  match fuel with
+  | O => false
+  | S f =>
+    match t, v with
+    | TSeq _ root ext, VSeq fields =>
+      forallb (fun m => match lookup (m_name m) fields with
+                        | Some x => fully_present f env (m_ty m) x
+                        | None => negb (is_mandatory (m_opt m))
+                        end) (members_flat root ext)
+    | TSeqOf _ elem _, VList vs => forallb (fully_present f env elem) vs
+    | TChoice root ext, VChoice n x =>
+      match lookup n (member_types (alternatives root ext)) with
+      | Some t' => fully_present f env t' x
+      | None => true
+      end
+    | TRef n, _ => match lookup n env with Some t' => fully_present f env t' v | None => false end
+    | TTag _ t', _ => fully_present f env t' v
+    | _, _ => true
+    end
+  end.
